@@ -126,10 +126,12 @@ func porcupineCheck(w *World, ops []*Op, class string) {
 			m := state.(*Model).clone()
 			op := input.(*Op)
 			if len(op.Cmd.Inner) > 0 {
+				inner := op.Cmd.Inner
 				if op.Reply.isErr() {
-					return true, m
+					// a script that failed half-way: the writes it did make
+					inner = inner[:op.Applied]
 				}
-				for _, c := range op.Cmd.Inner {
+				for _, c := range inner {
 					m.apply(c, op.InvokeT)
 				}
 				return true, m
@@ -156,9 +158,21 @@ func porcupineCheck(w *World, ops []*Op, class string) {
 			continue
 		}
 		for _, a := range op.Cmd.Args {
-			if a == "EX" || a == "EXPIRE" || a == "TTL" {
+			if a == "EX" || a == "EXPIRE" {
 				hasDL = true
 			}
+		}
+		if (op.name() == "evalna" || op.name() == "evalnasha") && len(op.Cmd.Inner) > 1 {
+			// EVALNA is not atomic: each of its calls is its own operation
+			for i, in := range op.Cmd.Inner {
+				sub := &Op{Client: op.Client, Cmd: Cmd{Args: op.Cmd.Args, Inner: [][]string{in}}, Invoke: op.Invoke, Return: op.Return,
+					InvokeT: op.InvokeT, ReturnT: op.ReturnT, Reply: op.Reply}
+				if i < op.Applied {
+					sub.Applied = 1
+				}
+				pops = append(pops, porcupine.Operation{ClientId: 100 + op.Client*10 + i, Input: sub, Call: int64(op.Invoke)*2 + 1, Output: op.Reply, Return: int64(op.Return) * 2})
+			}
+			continue
 		}
 		pops = append(pops, porcupine.Operation{ClientId: op.Client, Input: op, Call: int64(op.Invoke)*2 + 1, Output: op.Reply, Return: int64(op.Return) * 2})
 	}
@@ -167,13 +181,16 @@ func porcupineCheck(w *World, ops []*Op, class string) {
 		w.stat("c07.porcupine_skipped_deadlines", 1)
 		return
 	}
-	res := porcupine.CheckOperationsTimeout(model, pops, 5*time.Second)
-	switch res {
-	case porcupine.Illegal:
-		w.violate(class+"/porcupine", "history of %d operations is not linearizable against the reference model", len(pops))
-	case porcupine.Unknown:
-		w.stat("c07.porcupine_unknown", 1)
-	default:
-		w.stat("c07.porcupine_ok", 1)
-	}
+	// porcupine's timeout needs a real clock: run it after the bubble has ended
+	w.post = append(w.post, func() {
+		res := porcupine.CheckOperationsTimeout(model, pops, 3*time.Second)
+		switch res {
+		case porcupine.Illegal:
+			w.violate(class+"/porcupine", "history of %d operations is not linearizable against the reference model", len(pops))
+		case porcupine.Unknown:
+			w.stat("c07.porcupine_unknown", 1)
+		default:
+			w.stat("c07.porcupine_ok", 1)
+		}
+	})
 }
